@@ -172,6 +172,21 @@ func batchCmd(args []string) {
 	if err := b.WritePackage(gsrc); err != nil {
 		panic(err)
 	}
+	// dependency files with a Go package of their own: their .pb.go goes into <dir>/<GoPackage>
+	for _, d := range b.Case.Request.Deps {
+		if d.GoPackage == "" {
+			continue
+		}
+		dsrc, err := run.RunGogo(self, desc.BuildRequestFor(&b.Case.Request, desc.WKTParam, d.Name))
+		if err != nil {
+			status["stage"] = "gogo"
+			status["error"] = "dependency " + d.Name + ": " + err.Error()
+			return
+		}
+		ddir := filepath.Join(*work, d.GoPackage)
+		os.MkdirAll(ddir, 0o755)
+		ioutil.WriteFile(filepath.Join(ddir, strings.NewReplacer("/", "_", ".", "_").Replace(d.Name)+".pb.go"), []byte(dsrc), 0o644)
+	}
 	if err := b.Build(); err != nil {
 		status["stage"] = "build"
 		status["error"] = firstLines(b.BuildErr, 12)
@@ -226,9 +241,29 @@ func pluginOnlyCmd(args []string) {
 	if err := json.Unmarshal(b, &c); err != nil {
 		panic(err)
 	}
+	// a plugin-only run is never compiled: when the case does not say where the Go packages of its dependency files live, a fixed
+	// import base is used, so that the text does not depend on the directory the variant happens to run in
+	carried := map[string]bool{}
+	if c.Yaml != nil {
+		for _, kv := range c.Yaml.ImportPathOverrides {
+			carried[kv.K] = true
+		}
+	}
 	bt, err := pipe.NewBatch(*work, &c, &gen.Meta{})
 	if err != nil {
 		panic(err)
+	}
+	for _, d := range c.Request.Deps {
+		if d.GoPackage != "" && !carried[d.GoPackage] {
+			c.Request.ImportBase = "verifharness/variant"
+			if c.Yaml != nil {
+				for i := range c.Yaml.ImportPathOverrides {
+					if c.Yaml.ImportPathOverrides[i].K == d.GoPackage {
+						c.Yaml.ImportPathOverrides[i].V = "verifharness/variant/" + d.GoPackage
+					}
+				}
+			}
+		}
 	}
 	lic := readLicense()
 	var shas []string
@@ -286,10 +321,12 @@ func relocatePackage(c *desc.Case, work string) {
 	if err != nil {
 		return
 	}
-	now := "verifharness/" + filepath.ToSlash(rel) + "/spkg"
+	base := "verifharness/" + filepath.ToSlash(rel)
 	fix := func(v string) string {
-		if strings.HasPrefix(v, "verifharness/") && strings.HasSuffix(v, "/spkg") {
-			return now
+		for _, sub := range []string{"/spkg", "/dpkg"} {
+			if strings.HasPrefix(v, "verifharness/") && strings.HasSuffix(v, sub) {
+				return base + sub
+			}
 		}
 		return v
 	}
